@@ -6,6 +6,8 @@ import (
 
 	"github.com/tanema/gween"
 	"github.com/tanema/gween/ease"
+	"google.golang.org/grpc/codes"
+	"google.golang.org/grpc/status"
 	"google.golang.org/protobuf/proto"
 	"google.golang.org/protobuf/types/known/timestamppb"
 
@@ -98,7 +100,7 @@ func (s *MemoryDevice) UpdateBrightness(ctx context.Context, request *traits.Upd
 						resource.WithResetPaths("target_level_percent", "brightness_tween"),
 						resource.WithExpectedValue(lastObj),
 					)
-					if err != nil && err != resource.ExpectedValuePreconditionFailed {
+					if err != nil && !rampLostOwnership(err) {
 						panic(err) // programmer error
 					}
 					return
@@ -112,7 +114,7 @@ func (s *MemoryDevice) UpdateBrightness(ctx context.Context, request *traits.Upd
 					resource.WithExpectedValue(lastObj),
 				)
 				switch {
-				case err == resource.ExpectedValuePreconditionFailed:
+				case rampLostOwnership(err):
 					// somebody else changed the value, tweening is done
 					return
 				case err != nil:
@@ -168,6 +170,12 @@ func (s *MemoryDevice) PullBrightness(request *traits.PullBrightnessRequest, ser
 	}
 
 	return server.Context().Err()
+}
+
+// rampLostOwnership reports whether a write of the ramp failed because somebody else changed the value: either the
+// value was no longer the one the ramp wrote last, or another write committed while this one was in progress.
+func rampLostOwnership(err error) bool {
+	return err == resource.ExpectedValuePreconditionFailed || status.Code(err) == codes.Aborted
 }
 
 func capLevelPercent(next *traits.Brightness) {
